@@ -766,3 +766,54 @@ Proof.
   eapply (twt_fuel (ncall d') (ncall (S d'))); eauto. apply ncall_fuel_step.
 Qed.
 End ToolProofs.
+
+(* ====================================================================== *)
+(* 4. consecutive heal() / supervise() calls on one object                 *)
+
+(* every call of a history is the single-call model against the environment
+   as the earlier calls left it, so each stays within its own budget *)
+Lemma heal_history_proof :
+  forall (gen : nat -> option ctx -> gen_out) (validate : Z -> vres) (decay : Q) (max_retries : Z)
+         (n k0 : nat) (r : heal_result),
+    In r (heal_runs gen validate decay max_retries n k0) ->
+    length (h_calls r) <= Z.to_nat (max_retries + 1) /\
+    (forall c, nth_error (h_calls r) 0 = Some c -> snd c = None) /\
+    match h_outcome r with
+    | ValidFirstTry | Healed => h_tagged r = false /\ h_structure r <> None
+    | Degraded =>
+        h_tagged r = true /\ h_conf r = 0%Q /\ h_structure r = None /\
+        length (h_calls r) = Z.to_nat (max_retries + 1)
+    | GenRaised => True
+    end.
+Proof.
+  intros gen validate decay mr n. induction n as [|n IH]; intros k0 r Hin; [destruct Hin|].
+  cbn [heal_runs] in Hin. destruct Hin as [<- | Hin]; [|exact (IH _ _ Hin)].
+  set (g := fun k ec => gen (k0 + k) ec).
+  split; [exact (proj1 (heal_calls_le_proof g validate decay mr))|].
+  split.
+  - intros c Hc. exact (proj2 (retry_sees_previous_error_proof g validate decay mr 0 c Hc)).
+  - pose proof (degraded_tagged_zero_proof g validate decay mr) as H.
+    destruct (h_outcome (heal g validate decay mr)); auto.
+    destruct H as (H1 & H2 & H3 & H4 & _). auto.
+Qed.
+
+Lemma swarm_history_proof :
+  forall (factory_ok : nat -> bool) (beh : nat -> nat -> wstep) (thr : Q)
+         (max_regenerations max_steps : Z) (n w0 : nat) (r : swarm_result),
+    In r (swarm_runs factory_ok beh thr max_regenerations max_steps n w0) ->
+    length (s_workers r) <= Z.to_nat (max_regenerations + 1) /\
+    (forall w, In w (s_workers r) -> w_steps w <= Z.to_nat max_steps) /\
+    (s_success r = true ->
+       exists w j o, factory_ok w = true /\ beh w j = WOut o true /\ s_output r = Some o) /\
+    (s_success r = false -> s_output r = None).
+Proof.
+  intros fo beh thr mg ms n. induction n as [|n IH]; intros w0 r Hin; [destruct Hin|].
+  cbn [swarm_runs] in Hin. destruct Hin as [<- | Hin]; [|exact (IH _ _ Hin)].
+  set (f := fun w => fo (w0 + w)). set (b := fun w j => beh (w0 + w) j).
+  split; [exact (proj1 (swarm_workers_le_proof f b thr mg ms))|].
+  split.
+  - intros w Hw. exact (proj1 (swarm_steps_le_proof f b thr mg ms w Hw)).
+  - destruct (swarm_success_has_marker_proof f b thr mg ms) as (Hs & Hn). split; [|exact Hn].
+    intros Hy. destruct (Hs Hy) as (pre & w & j & o & _ & _ & Hf & Hb & Ho & _).
+    exists (w0 + w), j, o. auto.
+Qed.
